@@ -23,51 +23,43 @@ Theorem C10_client_side_clean :
 Proof. exact client_side_clean. Qed.
 Print Assumptions C10_client_side_clean.
 
-(* (2b) both sides: after any history in which all calls have exited, everything the client's h2 had
-   to send has been written and the client's frames have arrived, nothing is tracked and no h2 stream
-   is open on either side.
-   FULL STATEMENT -- false of the faithful model (finding D21 "RST held back under back-pressure",
-   refuted per call by C10_client_exit_reaches_server_refuted): the same with `cpaused s = false` in
-   place of the last hypothesis:
-     all_calls is_cexited s -> all_calls (fun k => negb (is_running k)) s ->
-     all_calls (fun k => match k_qc k with [] => true | _ => false end) s -> cpaused s = false ->
-     creg s = [] /\ sreg s = [] /\ open_out s = 0 /\ open_in s = 0.
-   The extra hypothesis `k_held k = false` excludes exactly the calls whose context exit ran
-   reset_nowait while writing was paused and after which nothing has been written on the connection. *)
-Theorem C10_no_open_streams_partial :
+(* (2b) both sides: after any history in which all calls have exited, writing is not paused and the
+   client's frames have arrived, nothing is tracked and no h2 stream is open on either side.  (While
+   writing is paused the RST_STREAM of a context exit waits in the client's h2 buffer; resume_writing
+   writes it -- the repaired D45 -- which is what the invariant "nothing held back unless paused" uses.) *)
+Theorem C10_no_open_streams :
   forall n m ops, let s := run ops (init n m) in
   all_calls is_cexited s -> all_calls (fun k => negb (is_running k)) s ->
   all_calls (fun k => match k_qc k with [] => true | _ => false end) s ->
-  all_calls (fun k => negb (k_held k)) s ->
+  cpaused s = false ->
   creg s = [] /\ sreg s = [] /\ open_out s = 0 /\ open_in s = 0.
-Proof. exact no_open_streams_partial. Qed.
-Print Assumptions C10_no_open_streams_partial.
+Proof. exact no_open_streams. Qed.
+Print Assumptions C10_no_open_streams.
 
-(* (2b') per call, whatever the handler does: the client has left the context, its h2 has written
-   everything, the frames have arrived => the stream counts on neither side.
-   FULL STATEMENT -- with `cpaused s = false` in place of `k_held k = false` -- is false (D21): *)
-Theorem C10_client_exit_reaches_server_partial :
+(* (2b') per call, whatever the handler does (it may still be waiting for the client): the client has
+   left the context, writing is possible, the frames have arrived => the stream counts on neither side *)
+Theorem C10_client_exit_reaches_server :
   forall n m ops c k, let s := run ops (init n m) in
-  nth_error (calls s) c = Some k -> k_cph k = CExited -> k_qc k = [] -> k_held k = false ->
+  nth_error (calls s) c = Some k -> k_cph k = CExited -> k_qc k = [] -> cpaused s = false ->
   h2_open (k_ch k) = false /\ h2_open (k_sh k) = false.
-Proof. exact client_exit_reaches_server_partial. Qed.
-Print Assumptions C10_client_exit_reaches_server_partial.
+Proof. exact client_exit_reaches_server. Qed.
+Print Assumptions C10_client_exit_reaches_server.
 
-(* witness held_witness_running = open, deliver, pause_writing, context exit, resume_writing: quiescent,
-   writable, the client is done -- the server still tracks the call and its stream still counts *)
-Theorem C10_client_exit_reaches_server_refuted :
-  exists n m ops c k, let s := run ops (init n m) in
-    nth_error (calls s) c = Some k /\ k_cph k = CExited /\ k_qc k = [] /\
-    cpaused s = false /\ quiescent s = true /\
-    creg s = [] /\ open_out s = 0 /\ sreg s = [c] /\ open_in s = 1 /\ h2_open (k_sh k) = true.
-Proof. exact client_exit_reaches_server_refuted. Qed.
-Print Assumptions C10_client_exit_reaches_server_refuted.
-
-(* any later write of the client's h2 buffer releases what was held back *)
+(* a context exit while writing is paused: h2 closes the stream at once for the client, the frame is held
+   back; any write, and resume_writing at the latest, releases everything held back *)
 Theorem C10_flush_releases_held :
-  forall s, all_calls (fun k => negb (k_held k)) (fst (step s CFlush)).
+  forall s, all_calls (fun k => negb (k_held k)) (fst (step s CFlush)) /\
+  (all_calls (fun k => negb (k_held k)) (fst (step s CResume)) /\ cpaused (fst (step s CResume)) = false).
 Proof. exact flush_releases_held. Qed.
 Print Assumptions C10_flush_releases_held.
+
+Theorem C10_exit_while_paused_is_held_then_released :
+  let s := run held_example (init 1 100%Z) in
+  creg s = [] /\ open_out s = 0 /\ open_in s = 1 /\ idx_where k_held (calls s) = [0] /\
+  let s' := run [CResume; DeliverC2S 0] s in
+  idx_where k_held (calls s') = [] /\ open_in s' = 0.
+Proof. exact exit_while_paused_is_held_then_released. Qed.
+Print Assumptions C10_exit_while_paused_is_held_then_released.
 
 (* (2c) the server side alone, against any client that has closed its half of every stream: a finished
    handler must not keep an h2 stream open.
